@@ -948,20 +948,24 @@ func c03r2(c *core.Ctx) {
 		if f.Recv != "Filter0" {
 			continue
 		}
-		core.InspectNoLits(f.Body, func(n ast.Node) bool {
-			kv, ok := n.(*ast.KeyValueExpr)
+		for _, cn := range constructionsOf(m, f) {
+			v, ok := cn.fields["Query0.hasRareComp"]
 			if !ok {
-				return true
+				continue
 			}
-			if id, ok := kv.Key.(*ast.Ident); ok && id.Name == "hasRareComp" {
-				if s := m.ExprString(kv.Value); strings.HasPrefix(s, "len(") && strings.HasSuffix(s, ".ids) > 0") {
-					c.OK("C03/R2c", f.Name+": hasRareComp", c.At(kv.Pos()), "set iff the filter has required components")
-				} else {
-					c.Violation("C03/R2c", f.Name+": hasRareComp", c.At(kv.Pos()), f.Name+": hasRareComp is "+s+", expected len(ids) > 0")
+			// len(<the filter's id list>) > 0
+			good := false
+			if be, ok := ast.Unparen(m.Inline(v)).(*ast.BinaryExpr); ok && be.Op == token.GTR && m.ExprString(be.Y) == "0" {
+				if call, ok := ast.Unparen(be.X).(*ast.CallExpr); ok && m.IsBuiltin(call, "len") && len(call.Args) == 1 && strings.HasSuffix(fieldKeyOf(m, call.Args[0]), ".ids") {
+					good = true
 				}
 			}
-			return true
-		})
+			if good {
+				c.OK("C03/R2c", f.Name+": hasRareComp", c.At(v.Pos()), "set iff the filter has required components")
+			} else {
+				c.Violation("C03/R2c", f.Name+": hasRareComp", c.At(v.Pos()), f.Name+": the rare-component flag is "+m.ExprString(v)+", expected len(ids) > 0")
+			}
+		}
 	}
 }
 
